@@ -97,6 +97,65 @@ pub fn gen_c03(rng: &Rng, tier: Tier) -> ReadScn {
         Tier::Thorough => (14, 300),
     };
     let fmt = if rng.chance(1, 2) { Fmt::Fasta } else { Fmt::Fastq };
+    if rng.chance(1, 3000) {
+        // a large buffer filled byte-wise with an interruption before every read, against a
+        // quiet configuration; or the default 64 KiB buffer with short reads against a small one
+        let big = rng.chance(1, 3);
+        let input = many_small_records(rng, fmt, if big { rng.range(70_000, 200_000) } else { rng.range(2000, 6000) });
+        let a = if big {
+            Cfg { cap: 65536, policy: PolicySpec::Std, script: vec![rng.range(512, 9000) as u32], cuts: vec![], faults: vec![] }
+        } else {
+            storm_cfg(rng)
+        };
+        let b = Cfg { cap: rng.range(64, 400), policy: PolicySpec::Std, script: vec![], cuts: vec![], faults: vec![] };
+        let n = input.iter().filter(|x| **x == if fmt == Fmt::Fasta { b'>' } else { b'@' }).count();
+        return ReadScn { fmt, input, cfgs: vec![a, b], ops: ops_next_to_end(n), mon: Monitors::default(), profile: if big { "default_capacity_short_reads".into() } else { "interrupt_storm".into() } };
+    }
+    if rng.chance(1, 12) {
+        // limited policies whose limit just permits the needed size: valid inputs only, the
+        // largest raw record extent is known from the generator's own record boundaries
+        let input = match fmt {
+            Fmt::Fasta => {
+                let a = gen_afasta(rng, max_recs, false);
+                render_fasta(rng, &a, *rng.pick(&[Ending::Lf, Ending::Crlf]), rng.chance(3, 4), 0, 0)
+            }
+            Fmt::Fastq => {
+                let a = gen_afastq(rng, max_recs, false);
+                render_fastq(rng, &a, *rng.pick(&[Ending::Lf, Ending::Crlf]), rng.chance(3, 4), 0)
+            }
+        };
+        let need = rough_record_lens(&input).into_iter().max().unwrap_or(1) + 2;
+        let n_cfg = rng.range(2, 3);
+        let cfgs: Vec<Cfg> = (0..n_cfg)
+            .map(|_| {
+                let mut c = gen_cfg(rng, &input, true);
+                // the doubling chain from this capacity, cut right after it can hold `need`
+                let mut limit = c.cap.max(3);
+                while limit < need {
+                    limit *= 2;
+                }
+                c.policy = match rng.below(3) {
+                    0 => PolicySpec::DoubleLimit(limit),
+                    1 => PolicySpec::DoubleUntilLimited(limit + 1, limit),
+                    _ => PolicySpec::DoubleUntilLimited(limit + 1, limit + rng.range(0, 3)),
+                };
+                c
+            })
+            .collect();
+        let m = model::build(fmt, &input);
+        let n = m.items.len();
+        // no exact-count batches: they legitimately need more than one record's size
+        let ops = if rng.chance(1, 2) {
+            ops_next_to_end(n)
+        } else {
+            let mut o = gen_history(rng, OpMix { next: 3, owned: 1, set: 3, exact: 0, seek: 0, iter: 0 }, 1 + rng.small(8), n, false);
+            for _ in 0..n + 2 {
+                o.push(if rng.chance(1, 3) { Op::ReadSet(0) } else { Op::Next });
+            }
+            o
+        };
+        return ReadScn { fmt, input, cfgs, ops, mon: Monitors::default(), profile: "limit_just_permits".into() };
+    }
     let (input, class) = any_input(rng, fmt, max_recs, max_noise);
     let n_cfg = rng.range(2, 4);
     let cfgs: Vec<Cfg> = (0..n_cfg).map(|_| gen_cfg(rng, &input, true)).collect();
@@ -305,6 +364,17 @@ pub fn gen_c14(rng: &Rng, tier: Tier) -> C14Scn {
         Tier::Thorough => (10, 200),
     };
     let fmt = if rng.chance(1, 2) { Fmt::Fasta } else { Fmt::Fastq };
+    if rng.chance(1, 400) {
+        let input = many_small_records(rng, fmt, rng.range(2000, 5000));
+        let cfg = storm_cfg(rng);
+        let n = input.iter().filter(|x| **x == if fmt == Fmt::Fasta { b'>' } else { b'@' }).count();
+        return C14Scn {
+            base: ReadScn { fmt, input, cfgs: vec![cfg], ops: ops_next_to_end(n), mon: Monitors::default(), profile: "interrupt_storm".into() },
+            salt: rng.below(64) as usize,
+            only_k: Some(vec![0, 1]),
+            check_interrupted: true,
+        };
+    }
     let (input, class) = any_input(rng, fmt, max_recs, max_noise);
     let mut cfg = gen_cfg(rng, &input, true);
     if rng.chance(1, 3) {
@@ -348,7 +418,7 @@ pub fn run_c14(scn: &C14Scn, st: &mut Stats) -> RunResult {
     }
     let mut hash = clean.log_hash;
     let mut v: Vec<Violation> = vec![];
-    let jo = JudgeOpts { prop: "C14", check_pos: false, mon_prefixes: &[], check_msg: false, only: Some(C14_ONLY) };
+    let jo = JudgeOpts { prop: "C14", check_pos: false, mon_prefixes: &[], check_msg: false, only: Some(C14_ONLY), exact_after_seek: false };
 
     // --- interrupted reads are invisible
     if scn.check_interrupted && cfg0.script.iter().any(|x| *x == 0) {
@@ -584,9 +654,45 @@ pub fn gen_c09(rng: &Rng, tier: Tier) -> C09Scn {
         let p = if rng.chance(1, 2) { gen_permissive_policy(rng, input.len()) } else { gen_refusing_policy(rng, cfg.cap) };
         ops.insert(at, Op::SetPolicy(p));
     }
-    // thorough: long inputs of small records that all fit — must never grow
     let mut profile = class.to_string();
     let mut input = input;
+    if rng.chance(1, 80) {
+        // sizes of several KiB that are not page-aligned: growth by +k / doubling-with-limit from
+        // a capacity of 3000..6000 for one record of 1..3 capacities
+        let cap = rng.range(3000, 6000);
+        let big = rng.range(cap - 10, 3 * cap);
+        let mut v = vec![];
+        let seqs = [rng.range(0, 60), big, rng.range(0, 60)];
+        for (i, l) in seqs.iter().enumerate() {
+            match fmt {
+                Fmt::Fasta => {
+                    v.extend_from_slice(format!(">r{}\n", i).as_bytes());
+                    v.extend(std::iter::repeat(b'A').take(*l));
+                    v.push(b'\n');
+                }
+                Fmt::Fastq => {
+                    v.extend_from_slice(format!("@r{}\n", i).as_bytes());
+                    v.extend(std::iter::repeat(b'A').take(*l / 2));
+                    v.extend_from_slice(b"\n+\n");
+                    v.extend(std::iter::repeat(b'I').take(*l / 2));
+                    v.push(b'\n');
+                }
+            }
+        }
+        input = v;
+        cfg.cap = cap;
+        cfg.cuts = vec![];
+        cfg.script = if rng.chance(1, 2) { vec![] } else { vec![rng.range(500, 5000) as u32] };
+        cfg.policy = match rng.below(4) {
+            0 => PolicySpec::Add(rng.range(1000, 3000)),
+            1 => PolicySpec::DoubleUntilLimited(rng.range(500, 3000), rng.range(5000, 12000)),
+            2 => PolicySpec::DoubleUntil(rng.range(1000, 5000)),
+            _ => PolicySpec::DoubleLimit(rng.range(6000, 20000)),
+        };
+        ops = ops_next_to_end(3);
+        profile = "kib_sizes".into();
+    }
+    // thorough: long inputs of small records that all fit — must never grow
     if tier == Tier::Thorough && rng.chance(1, 40) && fmt == Fmt::Fasta {
         let k = rng.range(500, 4000);
         let mut v = vec![];
@@ -642,7 +748,7 @@ pub fn run_c09(scn: &C09Scn, st: &mut Stats) -> RunResult {
     if let Some(h) = record_stats(rs, cfg, &log, st) {
         st.set_insert("nontrivial", h);
     }
-    let jo = JudgeOpts { prop: "C09", check_pos: false, mon_prefixes: &[], check_msg: false, only: Some(C09_ONLY) };
+    let jo = JudgeOpts { prop: "C09", check_pos: false, mon_prefixes: &[], check_msg: false, only: Some(C09_ONLY), exact_after_seek: false };
     let (mut jv, cursors) = judge_with_cursors(&m, rs, &log, &jo);
     v.append(&mut jv);
     // (a) chain: every grow_to argument is the capacity the reader has at that time
@@ -814,10 +920,19 @@ pub struct C12Scn {
     /// read with record sets instead of next()
     #[serde(default)]
     pub sets: bool,
+    /// FASTA only: blank lines in front of the first record (skipped by the reader; they are
+    /// rendered with the terminators of the rendering)
+    #[serde(default)]
+    pub lead_blank: usize,
 }
 
 pub fn render_c12(s: &C12Scn, r: &Render) -> Vec<u8> {
     let mut lines: Vec<Vec<u8>> = vec![];
+    if s.fmt == Fmt::Fasta {
+        for _ in 0..s.lead_blank {
+            lines.push(vec![]);
+        }
+    }
     for rec in &s.recs {
         match s.fmt {
             Fmt::Fasta => {
@@ -874,7 +989,8 @@ pub fn gen_c12(rng: &Rng, tier: Tier) -> C12Scn {
             }
         }
     }
-    let mut s = C12Scn { fmt, recs, renders: vec![], sets: rng.chance(1, 4) };
+    let lead_blank = if fmt == Fmt::Fasta && rng.chance(1, 4) { rng.range(1, 9) } else { 0 };
+    let mut s = C12Scn { fmt, recs, renders: vec![], sets: rng.chance(1, 4), lead_blank };
     // the four canonical renderings in random order, FASTA additionally per-line mixtures
     let mut kinds: Vec<(Vec<bool>, bool)> = vec![(vec![false], true), (vec![true], true), (vec![false], false), (vec![true], false)];
     if fmt == Fmt::Fasta {
@@ -907,9 +1023,18 @@ pub fn run_c12(s: &C12Scn, st: &mut Stats) -> RunResult {
         let input = render_c12(s, r);
         let n = s.recs.len();
         let ops = if s.sets { (0..n + 2).map(|_| Op::ReadSet(0)).collect() } else { ops_next_to_end(n) };
-        let rs = ReadScn { fmt: s.fmt, input, cfgs: vec![r.cfg.clone()], ops, mon: Monitors::default(), profile: String::new() };
+        // the header accessors (id / desc / id_desc) are part of "the returned header"
+        let mon = Monitors { views: true, iters: false, serde: false, unchanged: false, iter_seed: 0 };
+        let rs = ReadScn { fmt: s.fmt, input, cfgs: vec![r.cfg.clone()], ops, mon, profile: String::new() };
         let log = drive(&rs, &r.cfg, &vec![]);
         nt |= record_stats(&rs, &r.cfg, &log, st).is_some();
+        for step in &log.steps {
+            for (rule, d) in &step.mon {
+                if (rule.starts_with("C13.id") || rule.starts_with("C13.desc")) && v.len() < 2 {
+                    v.push(Violation::new("C12.header_accessors", format!("rendering with crlf mask {:?}: {}", r.crlf, d)));
+                }
+            }
+        }
         hash = vcore::mix(hash, log.log_hash);
         let mut recs = vec![];
         let mut lines = vec![];
@@ -1074,6 +1199,14 @@ impl Check for C12 {
         if s.sets {
             let mut c = s.clone();
             c.sets = false;
+            out.push(c);
+        }
+        if s.lead_blank > 0 {
+            let mut c = s.clone();
+            c.lead_blank -= 1;
+            out.push(c);
+            let mut c = s.clone();
+            c.lead_blank = 0;
             out.push(c);
         }
         out.into_iter().map(|x| serde_json::to_value(x).unwrap()).collect()
